@@ -185,7 +185,7 @@ Definition run_hunt4 (fill stp : N) (ops : list h4op) : string :=
 Definition show_loc (n : string) (l : nat * nat) : string := n ++ "=" ++ dec_of_nat (fst l) ++ "." ++ dec_of_nat (snd l).
 Definition offsets_table : string :=
   join " " [show_loc "ethsrc" L_ETH_SRC; show_loc "ip4src" L_IP4_SRC; show_loc "ip6src" L_IP6_SRC; show_loc "arpsha" L_ARP_SHA;
-            show_loc "arpspa" L_ARP_SPA; show_loc "dhcpxid" L_DHCP_XID; show_loc "dhcpchaddr" L_DHCP_CHADDR].
+            show_loc "arpspa" L_ARP_SPA; show_loc "arptpa" L_ARP_TPA; show_loc "dhcpxid" L_DHCP_XID; show_loc "dhcpchaddr" L_DHCP_CHADDR].
 
 Definition dispatch (kind : string) (args : list string) : string :=
   if String.eqb kind "off" then out3 offsets_table "-" "-"
